@@ -11,7 +11,7 @@ import common, gen_alias
 COQ_FILES = ["Base/FM.v", "Base/Sys.v", "Values/Cover.v", "Values/Store.v", "Values/Pool.v", "Values/Cow.v",
              "Values/LinExpr.v", "Values/LinSys.v", "Values/SwapVec.v", "Values/Lazy.v"]
 
-DOM_ORDER = ["C", "NNC", "Grid", "BDS", "Oct", "Box", "PS", "Prod", "LE", "CS", "GS"]
+DOM_ORDER = ["C", "NNC", "Grid", "BDS", "Oct", "Box", "PS", "Prod", "LE", "CS", "GS", "ITV", "PIP", "MIP"]
 
 
 def build():
@@ -98,6 +98,13 @@ def run_judge(judge, trace, work, tag, timeout=3000):
 def aliasing_of(t):
     """aliasing pattern of an `op X f Y [.. Z]` / `qry X f Y` line: which object positions coincide"""
     if len(t) < 4 or not t[3].lstrip("-").isdigit(): return "unary"
+    if t[2] in ("add_assign", "sub_assign", "mul_assign", "div_assign", "join3", "intersect3") and len(t) == 5 and t[4].isdigit():
+        z, x, y = t[1], t[3], t[4]       # three-address interval arithmetic z.op(x, y)
+        if z == x == y: return "z=x=y"
+        if z == x: return "z=x"
+        if z == y: return "z=y"
+        if x == y: return "x=y"
+        return "distinct"
     x, y = t[1], t[3]
     z = t[-1] if (t[2].endswith("_extrapolation_assign_of") and len(t) >= 5) else None
     if z is None: return "x=y" if x == y else "distinct"
@@ -149,10 +156,10 @@ def classify(dom, kind, opline, detail=""):
 
 def plan_for(chk):
     if chk.quick:
-        n = {"C": 28, "NNC": 28, "Grid": 28, "BDS": 20, "Oct": 20, "Box": 20, "PS": 22, "Prod": 16, "LE": 14, "CS": 12, "GS": 12}
+        n = {"C": 28, "NNC": 28, "Grid": 28, "BDS": 20, "Oct": 20, "Box": 20, "PS": 22, "Prod": 16, "LE": 14, "CS": 12, "GS": 12, "ITV": 30, "PIP": 30, "MIP": 20}
         steps = 14
     else:
-        n = {"C": 900, "NNC": 900, "Grid": 800, "BDS": 600, "Oct": 600, "Box": 600, "PS": 600, "Prod": 400, "LE": 300, "CS": 250, "GS": 250}
+        n = {"C": 900, "NNC": 900, "Grid": 800, "BDS": 600, "Oct": 600, "Box": 600, "PS": 600, "Prod": 400, "LE": 300, "CS": 250, "GS": 250, "ITV": 600, "PIP": 500, "MIP": 400}
         steps = 18
     sw = 5 if chk.quick else 60
     sweeps = [("sweep:" + d, sw * (2 if d in ("C", "NNC") else 1), 0) for d in ("C", "NNC", "Grid", "BDS", "Oct", "Box", "PS", "Prod")]
@@ -168,6 +175,12 @@ def run(chk):
                 "for powersets the operands are first made to SHARE Determinate representations by every route (self, copy ctor, operator=, swap back and forth, "
                 "upper_bound_assign / least_upper_bound_assign, add_disjunct of the other's disjunct) and every disjunct-wise or collection-level operation and query is run a "
                 "THIRD time on deep, unshared rebuilds of both operands (each disjunct rebuilt from its constraints): call as chosen = call on copies = call on rebuilds; "
+                "every const argument of every binary operation / query is also checked DIRECTLY inside the harness (copy before vs copy after with the library's ==, both containments, "
+                "dimension, OK()), and dedicated sweep cases run EVERY binary operation and query of each domain with the argument in the plain / empty-meet / empty-argument / "
+                "empty-receiver configurations (strict constraints for NNC); Rational_Interval three-address arithmetic (add/sub/mul/div/join/intersect, compound operators, neg) with "
+                "the receiver as first, second or both operands over all sign classes and open/closed/unbounded ends; PIP_Problem / MIP_Problem copies, assignments and swaps of solved "
+                "problems followed by mutation / clearing / destruction of the source (value read from the object itself: printed solution tree, parametric values of every leaf, every "
+                "tree node owned by this very problem; MIP status and optimum); "
                 "after EVERY command every pool object is re-read through a fresh copy and compared AS A SET with what it denoted before (verified equiv_sys / "
                 "cover_equiv / gens_equiv; identical text is accepted without the oracle); distinct non-trivial = distinct (domain, operation, aliasing pattern) "
                 "triples exercised plus distinct (domain, status-flag vector) pairs reached")
